@@ -285,6 +285,7 @@ fn ser_files<T: serde::Serialize + serde::de::DeserializeOwned + layout21utils::
         let before = io.borrow().errors_returned.len();
         // either entry point: SerializationFormat::save or the SerdeFile trait method
         let via_trait = io.borrow_mut().ftape.chance(1, 2);
+        let mut retry = false;
         let saved = match guard(|| if via_trait { layout21utils::SerdeFile::save(lib, fs.sp(L_MK), fmt) } else { fmt.save(lib, fs.sp(L_MK)) }) {
             Err(p) => {
                 out.violation = Some(panic_violation("SerializationFormat::save", &p, art(Value::Null)));
@@ -293,6 +294,7 @@ fn ser_files<T: serde::Serialize + serde::de::DeserializeOwned + layout21utils::
             Ok(Err(e)) => {
                 if cfg == Cfg::Terminal && io.borrow().errors_returned.len() > before {
                     out.probes.hit("save_terminal_err_reported");
+                    retry = true;
                 } else {
                     out.violation = Some(v("not-transparent", format!("{}:save/{}/result", fk, cfg.name()), format!("save fails without a terminal fault: {}", e), Value::Null));
                 }
@@ -300,6 +302,27 @@ fn ser_files<T: serde::Serialize + serde::de::DeserializeOwned + layout21utils::
             }
             Ok(Ok(())) => true,
         };
+        if retry {
+            // history step: after the reported failure the same value is saved again, on the same thread, to a healthy
+            // file; that attempt must succeed and the file must load back equal
+            fs.plan(L_MK, FilePlan::default());
+            match guard(|| fmt.save(lib, fs.sp(L_MK))) {
+                Err(p) => out.violation = Some(panic_violation("SerializationFormat::save(retry after a failed save)", &p, art(Value::Null))),
+                Ok(Err(e)) => out.violation = Some(v("not-transparent", format!("{}:save/after-failed-save/result", fk), format!("saving again after a failed save fails on a healthy file: {}", e), Value::Null)),
+                Ok(Ok(())) => {
+                    out.probes.hit("history:save_again_after_failed_save");
+                    match guard(|| fmt.open::<T>(fs.sp(L_MK))) {
+                        Err(p) => out.violation = Some(panic_violation("SerializationFormat::open(after retry)", &p, art(Value::Null))),
+                        Ok(Err(e)) => out.violation = Some(v("load-error", format!("{}:save/after-failed-save/open", fk), format!("the file saved after a failed save does not load: {}", truncate(&e.to_string(), 300)), Value::Null)),
+                        Ok(Ok(l2)) => {
+                            if let Some(d) = eq(lib, &l2) {
+                                out.violation = Some(v("mismatch", format!("{}:save/after-failed-save:{}", fk, d), format!("the file saved after a failed save loads to a different value at {}", d), Value::Null));
+                            }
+                        }
+                    }
+                }
+            }
+        }
         if saved {
             let fired = io.borrow().errors_returned.len() > before;
             if fired {
